@@ -21,6 +21,10 @@ where
     T: State + Clone,
 {
     let state_clone = state.clone();
+    // output of this command is held back until it is known that the command is kept
+    let (final_out, final_err) = (out, err);
+    let (mut out_buf, mut err_buf) = (Vec::new(), Vec::new());
+    let (out, err) = (&mut out_buf, &mut err_buf);
     let mut cur_loc = state.push_code((*code).clone());
     let length = cur_loc + 1;
     let mut exec_count = 0;
@@ -155,6 +159,8 @@ where
         cur_loc += 1;
     }
 
+    final_out.write_all(&out_buf)?;
+    final_err.write_all(&err_buf)?;
     Ok((state, true))
 }
 
